@@ -90,7 +90,7 @@ def long_texts(run):
                 "_" * n, "_a" * n, "`" + "\\`" * (n // 2) + "`", "'" + "\\\\" * (n // 2) + "'",
                 "é" * n, "'" + "\\x41" * (n // 4) + "'", " " * n, " " * n + "#"]
     # many tokens (the token list itself is the observation, so these stay moderate)
-    out += ["(" * 2000, "1 " * 1000, "[" * 1500 + "]" * 1500, "-" * 2000 + "1", "a." * 1000 + "a", "f(" * 700 + ")" * 700]
+    out += ["(" * 1000, "1 " * 1000, "[" * 500 + "]" * 500, "-" * 1000 + "1", "a." * 500 + "a", "f(" * 400 + ")" * 400]
     return out
 
 
@@ -282,7 +282,13 @@ def correspondence(run):
             report_violation(run, kind, t, why)
         cases.append(case_term(t, toks, end, out))
         meta.append((kind, t, toks, end, out))
-    bad = run.coq_mismatches(HEADER, "case", "case_ok", cases, shard=run.n(250, 400))
+    # long texts go into small shards so that they spread over the workers
+    order = sorted(range(len(cases)), key=lambda i: meta[i][0] != "long")
+    nlong = sum(1 for m in meta if m[0] == "long")
+    cases = [cases[i] for i in order]
+    meta = [meta[i] for i in order]
+    bad = run.coq_mismatches(HEADER, "case", "case_ok", cases[:nlong], shard=6)
+    bad += [nlong + i for i in run.coq_mismatches(HEADER, "case", "case_ok", cases[nlong:], shard=run.n(300, 500))]
     for i in bad[:20]:
         kind, t, toks, end, out = meta[i]
         why = predicate(t, out)
